@@ -214,7 +214,8 @@ def one_history(args):
                     # (older value, value back, value gone) depends only on which of the two happened to be newer
                     sig = "%s/naming/instance-metadata" % v["symptom"]
                 else:
-                    sig = "%s/%s/%s/%s" % (v["symptom"], v.get("component", "-"), v.get("direction", "-"), v.get("field", "-"))
+                    # a row is [md5, length]: which of the two differs first is not part of the finding
+                    sig = "%s/%s/%s/%s" % (v["symptom"], v.get("component", "-"), v.get("direction", "-"), re.sub(r"\[\d+\]$", "", str(v.get("field", "-"))))
                 res.setdefault("violations", []).append({"signature": sig, "witness": v})
         return res
     except noderig.NodeDied as e:
